@@ -119,4 +119,22 @@ theorem error_returned (runs fails : Nat → Bool) : ∀ (steps : List Step),
           simpa [hcf] using hfailed.symm
         · exact ih hwrest _ _ n h
 
+/-- The calls are made in the order of the guard list. -/
+theorem exec_calls_sublist (runs fails : Nat → Bool) : ∀ (steps : List Step) (i : Nat) (err : Bool),
+    ((exec runs fails steps i err).calls.map (·.1)).Sublist (steps.map (·.name)) := by
+  intro steps
+  induction steps with
+  | nil => intro i err; simp [exec]
+  | cons st rest ih =>
+    intro i err
+    unfold exec
+    split
+    · exact (ih _ _).cons _
+    · simp only
+      split
+      · simp only [List.map_cons, List.map_nil]
+        exact (List.nil_sublist _).cons_cons _
+      · simp only [List.map_cons]
+        exact (ih _ _).cons_cons _
+
 end ArvVerif.C06
